@@ -103,7 +103,8 @@ reg["C14"] = {"level": "model_checking", "explanation": EXPL + "; the search sta
     "assumptions": COMMON_ASSUME + ["LIKE is an uninterpreted predicate over (id, pattern after the '*' -> '%' rewrite); tag matching is exact on the decoded string map (json_extract per key in SQLite, @> in Postgres)", "'matching' is evaluated on the stored state"],
     "outside": ["LIKE collation / '_' and '%' inside client patterns", "JWT signature verification of the cursor token (api layer)"],
     "harnesses": store(["VH_R_SearchPromises", "VH_R_SearchSchedules"], ["C14:"]) + [dict(h, reach=["two-pages"]) for h in store(["VH_R_TwoPages"], ["C14:"])]
-                 + co(["VH_P_Search"], ["C14:", "C01:", "C04:"], opts=SEARCHOPT, optsT=SEARCHOPT_T, reach=REACH_P)}
+                 + co(["VH_P_Search"], ["C14:", "C01:", "C04:"], opts=SEARCHOPT, optsT=SEARCHOPT_T, reach=REACH_P)
+                 + co(["VH_S_Search"], ["C14:"], opts={"slots.callbacks": 0, "slots.locks": 0, "slots.schedules": 2, "slots.promises": 0, "slots.tasks": 0, "faults": 0}, reach={"VH_S_Search": ["page", "cursor"]})}
 
 GRPC = "internal/app/subsystems/api/grpc"
 E2EOPT = {"slots.callbacks": 1, "slots.locks": 1, "slots.schedules": 1, "slots.promises": 1, "slots.tasks": 1, "faults": 1}
@@ -186,3 +187,11 @@ reg["C20"] = {"level": "model_checking",
                  + co(["VH_S_Fire"], ["C10:promise-as-configured", "C10:promise-created"], opts=SCHEDOPT, optsT=SCHEDOPT_T, reach=REACH_P)
                  + co(["VH_D_CreateRouted"], ["C08:invocation-task-addressed-as-routed"], opts=ROUTEOPT, reach=REACH_P)
                  + grpc(["C20:", "C15:request-fields-copied"], ["ReadPromise", "CreatePromise", "CreateSchedule"])}
+
+# C16 also owns batch ordering/atomicity/failure, the reads and the completion transaction
+reg["C16"]["harnesses"] += [dict(h, reach=["committed", "failed"]) for h in store(["VH_C06_ExecuteAtomic", "VH_C06_ProcessError"], ["C16:", "C06:"])] \
+    + store(["VH_R_ReadPromises", "VH_R_ReadTasks", "VH_R_Enqueueable", "VH_R_ReadSchedules"], []) + store(["VH_C05_CompletionTxn"], ["C16:", "C05:registration", "C05:exactly", "C05:created", "C05:other", "C05:no-spurious"])
+
+_res = {"name": "VH_SN_Resolve", "pkg": "internal/app/subsystems/aio/sender", "labels": ["C19:"], "reach": ["physical", "logical", "configured-target"]}
+reg["C19"]["harnesses"].append(_res)
+reg["C13"]["harnesses"].append(dict(_res))
